@@ -54,8 +54,16 @@ EdgeClass(st, ev, a, r) ==
             ELSE LET task == st.tasks[tk]
                      e1 == task.start + task.resp
                      pos == IF a.stage = "2" THEN PosIn(cur.n, e1, e1 + task.stat) ELSE PosIn(cur.n, -5, e1)
-                     prev == IF Has(st.res, rk) THEN st.res[rk].stage \o st.res[rk].sig ELSE "none"
-                 IN <<ev, r.err, a.stage, pos, prev,
+                     has == Has(st.res, rk)
+                     \* what is stored for (operator, task), and how the submission relates to it
+                     prev == IF has THEN st.res[rk].stage ELSE "none"
+                     sigrel == IF ~has THEN "-" ELSE IF st.res[rk].sig = StoredSig(a.sig) THEN "sameSig" ELSE "otherSig"
+                     revealed == has /\ st.res[rk].resp # "nil"
+                     respcls == IF a.resp = "nil" THEN "nil"
+                                ELSE IF revealed /\ st.res[rk].resp = a.resp THEN "sameResp"
+                                ELSE IF ~RespHasTaskId(a.resp) THEN "noid"
+                                ELSE IF revealed THEN "otherRespSameId" ELSE "id"
+                 IN <<ev, r.err, a.stage, pos, prev, sigrel, respcls,
                       IF a.from = a.o THEN "self" ELSE "foreign", IF a.o \in Range(task.optin) THEN "listed" ELSE "outsider",
                       IF r.err = "" THEN a.sig ELSE "-">>
     [] ev = "Challenge" ->
@@ -96,7 +104,7 @@ Do(ev, a) ==
         /\ errs' = IF eff \/ ~ONCEPERERR THEN errs ELSE errs \cup {<<ev, r.err>>}
         /\ L' = r.st
         /\ G' = GhostStep(G, r.st, ev, a, ok)
-        /\ tags' = tags \cup PropTags(L, r.st, G, ev, a, ok, r.err = "PANIC")
+        /\ tags' = IF COVER THEN tags ELSE tags \cup PropTags(L, r.st, G, ev, a, ok, r.err = "PANIC")
         /\ hist' = Append(hist, [ev |-> ev, a |-> a])
         /\ cls' = IF COVER THEN EdgeClass(L, ev, a, r) ELSE <<>>
 
